@@ -17,7 +17,12 @@ META = {
             "Lean model, which is compared with the real handlers on every defined setting name and on hostile "
             "variants (correspondence). Search (not proof): canaries planted in every store and secret setting, "
             "every GET route of the real route table + create/update/delete echoes requested as root, every response "
-            "scanned for each canary and its hex/base64/URL/JSON forms.",
+            "scanned for each canary and its hex/base64/URL/JSON forms; data source names of every provider spelling "
+            "(sqlite, sqlite3, postgres, case variants, others, none), each with a unique marker as its password, created "
+            "through POST /dsns and written into the store directly, then every DSN endpoint (create, get, list with paging, "
+            "update, grant, permission listing, delete; as root and as a holder of ego.sql only) and every line the server "
+            "logs meanwhile (REST/AUTH/DB/SQL/TABLE/SERVER/ROUTE/INFO/USER loggers, text and JSON format) scanned for every "
+            "marker and for the value at rest.",
     "note": "partial: the statement about ALL routes is a search (canary scan over the real route table, two storage "
             "backends), not a proof; proved parts are the two configuration endpoints (over the extracted rules) and "
             "non-interference of the extracted response sites. Trusted: the go/ast translator (fail-closed; its "
@@ -26,7 +31,9 @@ META = {
             "specification of secret-bearing names in Model.lean `spec` (hand-written from the property and the "
             "comments in internal/defs/config.go), Go strings.EqualFold / strings.ToLower modelled exactly only for "
             "runes that fold into ASCII (verified exhaustively against Go when the model was written; literals are "
-            "checked to be ASCII on every run). Not covered: log files (rest.request.payload logging), Ego-language "
+            "checked to be ASCII on every run). Not covered: the REST logger's trace of a request body (it repeats what the "
+            "client sent, a new password included; such lines are recognised by containing a body the harness sent and are "
+            "counted, not judged), log output outside the DSN phase, Ego-language "
             "services under lib/services, webauthn credentials. Defect found and repaired by fixes/C44.patch: the two "
             "endpoints used different lists (refresh token returned by POST /admin/config; client secret, userdata "
             "key, default credential and upper-case …PASSWORD names returned by both).",
@@ -176,6 +183,18 @@ def run(ctx):
     get_routes = sorted({r["route"] for r in routes if r.get("route")})
     if cases and c.get("get_routes", 0) < 40:
         ctx.broken.append("route table shrank: only %d GET routes exercised" % c.get("get_routes", 0))
+    # the DSN phase must have had something to find: DSNs with a secret at rest, of the sqlite and the postgres kind, made
+    # through the endpoint and through the store, and a captured log
+    if cases:
+        if c.get("dsn_made_post", 0) < 4:
+            ctx.broken.append("DSN phase: only %d data source names could be created through POST /dsns" % c.get("dsn_made_post", 0))
+        for k in ('dsn_with_secret_store_"sqlite"', 'dsn_with_secret_store_"sqlite3"', 'dsn_with_secret_store_"postgres"'):
+            if c.get(k, 0) < 2:
+                ctx.broken.append("DSN phase: %s = %d (no such record with a password at rest in both back ends)" % (k, c.get(k, 0)))
+        if c.get("dsn_requests", 0) < 150:
+            ctx.broken.append("DSN phase: only %d requests" % c.get("dsn_requests", 0))
+        if c.get("log_capture_failed", 0) or c.get("log_lines", 0) < 1000:
+            ctx.broken.append("DSN phase: server log not captured (%d lines)" % c.get("log_lines", 0))
     if rc == 0 and len(cases) < 200:
         ctx.broken.append("harness produced only %d correspondence cases" % len(cases))
     ctx.coverage.update({
@@ -193,6 +212,7 @@ def run(ctx):
                       "static_mirror_equal": [(r["kind"], r["arg"]) for r in ex["single"]] == STATIC_FIXED
                       and [(r["kind"], r["arg"]) for r in ex["all"]] == STATIC_FIXED},
         "get_routes_exercised": get_routes,
+        "dsn_phase": {k: v for k, v in c.items() if k.startswith(("dsn_", "log_"))},
         "search_label": "canary scan is a SEARCH over the real route table, not a proof",
     })
     return ctx.finish(level="proof")
